@@ -31,7 +31,7 @@ EXTENDS Integers, Sequences, FiniteSets, TLC, Emit
 
 CONSTANTS MaxLen,   \* maximal array length (A) / number of items (B)
           Vals,     \* the integers array elements and range limits are drawn from
-          Mode,     \* "repr" | "parse"
+          Mode,     \* "repr" | "reprd" | "parse"
           Dev       \* set of deviation flags (each must be refuted by TLC)
 
 VARIABLES case
@@ -106,7 +106,7 @@ Verdict(items, mn, mx) == IF items = <<>> THEN "ok"
                           ELSE IF Small(Head(items), mn) THEN "small"
                           ELSE IF Big(Head(items), mx) THEN "big"
                           ELSE Verdict(Tail(items), mn, mx)
-Steps == {-1, 0, 1, 2}
+Steps == {-2, -1, 0, 1, 2}
 Items == {[k |-> "num", a |-> x] : x \in Vals}
            \cup {[k |-> "r2", a |-> x, b |-> y] : x \in Vals, y \in Vals}
            \cup {[k |-> "r3", a |-> x, s |-> s, b |-> y] : x \in Vals, y \in Vals, s \in Steps}
@@ -114,7 +114,7 @@ Items == {[k |-> "num", a |-> x] : x \in Vals}
 NonEmptyItem(it) == ItemVals(it) # <<>> \/ Bad(it)
 RECURSIVE ItemSeqs(_)
 ItemSeqs(n) == IF n = 0 THEN {<<>>} ELSE LET S == ItemSeqs(n - 1) IN S \cup {Append(s, x) : s \in {t \in S : Len(t) = n - 1}, x \in Items}
-Bounds == {NoB} \cup {x \in Vals : x % 2 = 0}
+Bounds == {NoB} \cup {x \in Vals : x % 2 = 1}       \* interior values: elements below, at and above a bound exist
 
 \* reading the text of (A) as parser syntax: every progression loses its last element
 AsItem(t) == IF t.k = "num" THEN [k |-> "num", a |-> t.a] ELSE [k |-> "r3", a |-> t.a, s |-> t.s, b |-> t.b]
@@ -127,13 +127,21 @@ Init == case = [kind |-> "none"]
 PickRepr == \E v \in SeqsUpTo(MaxLen) \ {<<>>} :
               case' = [kind |-> "repr", v |-> v, runs |-> IF Len(v) < 2 THEN <<>> ELSE Runs(v),
                        segs |-> IF Len(v) < 2 THEN <<>> ELSE Segments(v), atoms |-> Repr(v), whole |-> Render(v), zero |-> Len(v) >= 2 /\ ZeroStep(v)]
+\* the segmentation depends on the neighbour differences only: arrays given by their difference sequence reach long
+\* adjacent runs within a small bound (Mode "reprd": Vals is the alphabet of differences, MaxLen their number)
+RECURSIVE SumTo(_, _)
+SumTo(d, n) == IF n = 0 THEN 0 ELSE d[n] + SumTo(d, n - 1)
+FromDiffs(d) == [i \in 1..Len(d) + 1 |-> SumTo(d, i - 1)]
+PickReprD == \E d \in SeqsUpTo(MaxLen) \ {<<>>} : LET v == FromDiffs(d) IN
+              case' = [kind |-> "repr", v |-> v, runs |-> Runs(v), segs |-> Segments(v), atoms |-> Repr(v), whole |-> Render(v),
+                       zero |-> ZeroStep(v)]
 PickParse == \E items \in ItemSeqs(MaxLen) \ {<<>>}, mn \in Bounds, mx \in Bounds :
                /\ (mn # NoB \/ mx # NoB) => \A i \in 1..Len(items) : NonEmptyItem(items[i])
                /\ (mn # NoB /\ mx # NoB) => mn <= mx
                /\ case' = [kind |-> "parse", items |-> items, mn |-> mn, mx |-> mx, verdict |-> Verdict(items, mn, mx),
                            vals |-> Parse(items),
                            scalar |-> Len(items) = 1 /\ items[1].k = "num"]
-Next == case.kind = "none" /\ IF Mode = "repr" THEN PickRepr ELSE PickParse
+Next == case.kind = "none" /\ IF Mode = "repr" THEN PickRepr ELSE IF Mode = "reprd" THEN PickReprD ELSE PickParse
 
 LawsRepr == (case.kind = "repr" /\ Len(case.v) >= 2) =>
                /\ Cover(case.v) /\ NeverNone(case.v) /\ LongRanges(case.v) /\ AdjustAlways(case.v)
